@@ -4,6 +4,7 @@ CONSTANTS
   Ops <- OpNames
   Variant = "ok"
   MaxPar = 2
+  MaxOps = 0
   Gen = TRUE
 INIT Init
 NEXT Next
